@@ -340,7 +340,9 @@ func c20r2(c *Ctx) {
 		if s.capture {
 			captureSites = append(captureSites, ins)
 		}
-		if s.exempt && !s.capture {
+		if s.exempt {
+			// a helper that emits both is an exempting site with respect to EARLIER capture sites
+			// (its own internal order is checked when the helper itself is analysed below)
 			exemptSites = append(exemptSites, ins)
 		}
 	})
@@ -351,12 +353,55 @@ func c20r2(c *Ctx) {
 		isExempt[e] = true
 	}
 	for _, cs := range captureSites {
-		bad, found := pathAvoidingE(nil, cs, nil, func(i ssa.Instruction) bool { return isExempt[i] }, nil, nil)
+		bad, found := pathAvoidingE(nil, cs, nil, func(i ssa.Instruction) bool { return isExempt[i] && i != cs }, nil, nil)
 		det := ""
 		if found && bad != nil {
 			det = "after a capturing rule (-j ISTIO_REDIRECT into ISTIO_OUTPUT) has been appended, an exempting rule (-j RETURN: proxy bypass / loopback / excluded port or range) can still be appended at " + p.pos(bad.Pos()) + ": iptables evaluates first-match, so the exemption never takes effect for traffic the capture rule matches (e.g. traffic to an excluded range on an included port is redirected)"
 		}
 		c.Check("no exemption is appended after capture site "+p.pos(cs.Pos()), cs.Pos(), !found, det)
+	}
+	// the same order rule inside every helper of the package that emits both kinds itself
+	for _, fn := range p.AllFuncs {
+		if fn == run || funcPkgPath(fn) != istioMod+"/"+pkgCapture || strings.HasSuffix(p.Fset.Position(fn.Pos()).Filename, "_test.go") || fn.Synthetic != "" {
+			continue
+		}
+		var caps, exs []ssa.Instruction
+		classify := func(rc ruleCall, ins ssa.Instruction) {
+			if isCaptureRule(rc) {
+				caps = append(caps, ins)
+			}
+			if isExemptRule(rc) {
+				exs = append(exs, ins)
+			}
+		}
+		for _, rc := range builderCalls(p, fn) {
+			classify(rc, rc.ins)
+		}
+		eachInstr(fn, func(ins ssa.Instruction) {
+			ci, ok := ins.(ssa.CallInstruction)
+			if !ok {
+				return
+			}
+			if _, isParam := ci.Common().Value.(*ssa.Parameter); isParam {
+				cs := constParams(ci.Common().Args)
+				rc := ruleCall{consts: cs}
+				if len(cs) > 1 {
+					rc.chain, rc.table = cs[0], cs[1]
+				}
+				classify(rc, ins)
+			}
+		})
+		if len(caps) == 0 || len(exs) == 0 {
+			continue
+		}
+		isEx := map[ssa.Instruction]bool{}
+		for _, e := range exs {
+			isEx[e] = true
+		}
+		for _, cs := range caps {
+			_, found := pathAvoidingE(nil, cs, nil, func(i ssa.Instruction) bool { return isEx[i] }, nil, nil)
+			c.Check("no exemption is appended after a capture rule in "+shortFn(fn), cs.Pos(), !found, "inside this helper an exempting rule (-j RETURN into ISTIO_OUTPUT) can be appended after a capturing rule (-j ISTIO_REDIRECT)")
+		}
 	}
 	c.Floor(4)
 }
